@@ -107,6 +107,16 @@ func (f *forwarder) resetAll() {
 	f.mu.Unlock()
 }
 
+// closeAll closes every connection gracefully (FIN, no RST).
+func (f *forwarder) closeAll() {
+	f.mu.Lock()
+	for _, c := range f.conns {
+		c.Close()
+	}
+	f.conns = nil
+	f.mu.Unlock()
+}
+
 func (f *forwarder) setStall(b bool) {
 	f.mu.Lock()
 	f.stall = b
@@ -124,7 +134,7 @@ type dohFault struct {
 
 func (d dohFault) String() string {
 	switch d.kind {
-	case "ok", "oversize", "midhang", "malformed":
+	case "ok", "oversize", "midhang", "malformed", "shortcl", "finmid":
 		return fmt.Sprintf("%s %d %d", d.kind, d.arg, d.salt)
 	case "status":
 		return fmt.Sprintf("status %d", d.arg)
@@ -191,6 +201,21 @@ func (s *dohServer) handler(w http.ResponseWriter, r *http.Request) {
 			case <-time.After(40 * time.Millisecond):
 			}
 		}
+	case "shortcl":
+		// declares a longer body than it sends, then ends the stream cleanly (no reset)
+		b := mk(100)
+		w.Header().Set("Content-Length", "100")
+		_, _ = w.Write(b[:f.arg])
+	case "finmid":
+		// part of the body, then the connection is closed cleanly (FIN) in the middle of it
+		b := mk(100)
+		w.Header().Set("Content-Length", "100")
+		_, _ = w.Write(b[:f.arg])
+		if fl, ok := w.(http.Flusher); ok {
+			fl.Flush()
+		}
+		time.Sleep(20 * time.Millisecond)
+		s.fwd.closeAll()
 	case "reset":
 		s.fwd.resetAll()
 	case "stall":
@@ -476,6 +501,8 @@ func init() {
 					f = dohFault{kind: "malformed", arg: 1 + r.Intn(300), salt: r.Intn(256)}
 				case 10:
 					f = dohFault{kind: "ok", arg: 65533 + r.Intn(2), salt: r.Intn(256)}
+				case 11:
+					f = dohFault{kind: []string{"shortcl", "finmid"}[r.Intn(2)], arg: 12 + r.Intn(80), salt: r.Intn(256)}
 				default:
 					f = dohFault{kind: "ok", arg: r.respLen(adv), salt: r.Intn(256)}
 					if f.arg > 65534 {
